@@ -74,6 +74,8 @@ impl CaoLangAllocator {
     pub unsafe fn alloc(&self, l: Layout) -> Result<NonNull<u8>, AllocError> {
         let s = l.size() + l.align();
         let allocated = s + self.allocated.fetch_add(s, Ordering::Relaxed);
+        #[cfg(feature = "verif-hooks")]
+        (*self.verif.get()).on_request(s, allocated);
         if allocated > self.limit.load(Ordering::Relaxed) {
             // the request is refused: it must not stay charged
             self.allocated.fetch_sub(s, Ordering::Relaxed);
